@@ -28,7 +28,8 @@ def norm_id(kind, value):
 
 DNS_POOL = ['example.org', 'www.example.org', '*.example.org', 'a.b.c.example.net', 'MiXed.Example.COM', 'bücher.example', 'παράδειγμα.example',
             'пример.example', '例え.example', '*.wild.example.org', 'xn--bcher-kva.example.de', 'single', 'ÜBER.example.org']
-IP_POOL = ['192.0.2.1', '198.51.100.255', '10.0.0.1', '2001:db8::1', '2001:0db8:0000:0000:0000:0000:0000:00ff', '::1', 'fe80::1:2:3:4', '2001:db8:0:0:1::']
+IP_POOL = ['192.0.2.1', '198.51.100.255', '10.0.0.1', '2001:db8::1', '2001:0db8:0000:0000:0000:0000:0000:00ff', '::1', 'fe80::1:2:3:4', '2001:db8:0:0:1::',
+           '::ffff:192.0.2.33', '::FFFF:C633:64FE', '0:0:0:0:0:ffff:10.0.0.9']
 
 
 def gen_cases(n, r, now):
@@ -98,8 +99,10 @@ def gen_cases(n, r, now):
         if r.random() < 0.04 and place['random_early_renew']['level'] in ('certificate', 'endpoint'):
             rer_txt = '18446744073709551615s'
         files = r.choice(['both'] * 8 + ['no-cert', 'no-key', 'none'])
+        # either file may be a symbolic link to the real one (keys kept on another volume, certificates published elsewhere)
+        links = r.choice([None] * 6 + ['cert', 'key', 'both']) if files == 'both' else None
         cases.append({'i': i, 'ids': ids, 'norm': norm, 'sans': sans, 'san_mode': san_mode, 'covered': covered, 'life_kind': life_kind,
-                      'not_after': na_txt, 'not_after_unix': na_unix, 'renew_delay': rd_txt, 'random_early_renew': rer_txt, 'files': files,
+                      'not_after': na_txt, 'not_after_unix': na_unix, 'renew_delay': rd_txt, 'random_early_renew': rer_txt, 'files': files, 'links': links,
                       'place': place, 'global': {'renew_delay': g_rd, 'random_early_renew': g_rer}})
     return cases
 
@@ -168,6 +171,13 @@ def probe_part(chk, tier, r):
             elif c['files'] == 'no-cert':
                 mk.append({'id': c['i'], 'out_key': cd + '/c.pk.pem', 'key_type': 'ecdsa-p256', 'sans': [['dns', 'x.example']]})
         C.vtool('mkcert', mk, timeout=3600)
+        for c in cases:
+            if c.get('links'):
+                os.makedirs(c['dir'] + '/real')
+                for which, name in (('cert', 'c.crt.pem'), ('key', 'c.pk.pem')):
+                    if c['links'] in (which, 'both'):
+                        os.rename(c['dir'] + '/' + name, c['dir'] + '/real/' + name)
+                        os.symlink('real/' + name, c['dir'] + '/' + name)
         cfgs = []
         for b in range(0, n, per_cfg):
             certs = []
@@ -231,6 +241,8 @@ def run_probe(chk, cases, cfgs, binary='acmed_v'):
             pb = judge(c, rec, chk)
             chk.distinct.add((c['files'], c['san_mode'] if c['files'] == 'both' else '-', c['life_kind'] if c['files'] == 'both' and c['covered'] else '-',
                               c['renew_delay'] if c['covered'] else '-', c['random_early_renew'] if c['covered'] else '-'))
+            if c.get('links'):
+                chk.count('files_behind_symbolic_links')
             if c['files'] == 'both' and c['covered']:
                 chk.count('delay_formula_checked')
                 chk.count('renew_delay_set_at_' + c['place']['renew_delay']['level'])
